@@ -454,7 +454,13 @@ pub fn register_upvalue<T>(
 
     if is_local {
         // `index` numbers the locals of the function that creates the closure
-        let location = &vm.runtime_data.value_stack.as_slice()[stack_offset(vm) + index as usize];
+        // a parameter of the entry function is never pushed: there is no slot to capture
+        let location = vm
+            .runtime_data
+            .value_stack
+            .as_slice()
+            .get(stack_offset(vm) + index as usize)
+            .ok_or(ExecutionErrorPayload::MissingArgument)?;
         let location = (location as *const Value).cast_mut();
         // the position of `location` in the list of open upvalues (sorted, highest first):
         // (the upvalue in front of it, the first upvalue that is not above it)
